@@ -113,4 +113,103 @@ theorem itemsLoop_encoded (b : Bytes) (sp : Bool) (fields : List Field) :
     rw [ih (pre ++ Spec.encodePart b f.part) post _ (fun x hx => hok x (by simp [hx])) hbud']
     simp only [dataRanges, List.zip_cons_cons, List.map_cons, hoff]
 
+/-! ### geometry of the encoded body -/
+
+/-- the delimiter right after the data of the part that starts at `pre.length` -/
+theorem part_delim_at (b : Bytes) (f : Field) (hf : FieldOK f) (pre rest : Bytes) :
+    ((pre ++ (Spec.encodePart b f.part ++ rest)).drop (pre.length + 2 + hdrLen f + 4 + f.data.length)).take
+      (Spec.delim b).length = Spec.delim b := by
+  unfold Spec.encodePart Field.part
+  simp only
+  rw [headerBlock_join _ (headerLines_ok f hf).1]
+  have e : pre ++ (CRLF ++ (utf8Encode (joinCRLF f.headerLines) ++ CRLF ++ (CRLF ++ (f.data ++ Spec.delim b))) ++ rest) =
+      (pre ++ CRLF ++ utf8Encode (joinCRLF f.headerLines) ++ CRLF ++ CRLF ++ f.data) ++ (Spec.delim b ++ rest) := by
+    simp only [List.append_assoc]
+  rw [e]
+  have hl : pre.length + 2 + hdrLen f + 4 + f.data.length =
+      (pre ++ CRLF ++ utf8Encode (joinCRLF f.headerLines) ++ CRLF ++ CRLF ++ f.data).length := by
+    simp [CRLF, hdrLen]; omega
+  rw [hl]
+  exact take_drop_mid _ _ _
+
+theorem dataRanges_length (tlen : Nat) (fields : List Field) : ∀ off, (dataRanges tlen off fields).length = fields.length := by
+  induction fields with
+  | nil => intro off; rfl
+  | cons f fs ih => intro off; simp [dataRanges, ih]
+
+/-- every range lies at least `CRLF` + `CRLFCRLF` after the start of the parts -/
+theorem dataRanges_lower (tlen : Nat) (fields : List Field) :
+    ∀ (off i : Nat) (r : Nat × Nat), (dataRanges tlen off fields)[i]? = some r → off + 6 ≤ r.1 ∧ r.1 ≤ r.2 := by
+  induction fields with
+  | nil => intro off i r h; simp [dataRanges] at h
+  | cons f fs ih =>
+    intro off i r h
+    cases i with
+    | zero =>
+      simp only [dataRanges, List.getElem?_cons_zero, Option.some.injEq] at h
+      subst h; simp only; omega
+    | succ i =>
+      simp only [dataRanges, List.getElem?_cons_succ] at h
+      have := ih _ i r h
+      omega
+
+/-- the ranges are in order, and two of them are at least a delimiter, a CRLF and a CRLFCRLF apart -/
+theorem dataRanges_separated (tlen : Nat) (fields : List Field) :
+    ∀ (off i j : Nat) (ri rj : Nat × Nat), i < j → (dataRanges tlen off fields)[i]? = some ri →
+      (dataRanges tlen off fields)[j]? = some rj → ri.2 + tlen + 6 ≤ rj.1 := by
+  induction fields with
+  | nil => intro off i j ri rj _ h; simp [dataRanges] at h
+  | cons f fs ih =>
+    intro off i j ri rj hij hi hj
+    cases j with
+    | zero => omega
+    | succ j =>
+      simp only [dataRanges, List.getElem?_cons_succ] at hj
+      cases i with
+      | zero =>
+        simp only [dataRanges, List.getElem?_cons_zero, Option.some.injEq] at hi
+        subst hi
+        have := (dataRanges_lower tlen fs _ j rj hj).1
+        simp only; omega
+      | succ i =>
+        simp only [dataRanges, List.getElem?_cons_succ] at hi
+        exact ih _ i j ri rj (by omega) hi hj
+
+/-- each range holds exactly its field's data and is followed by the delimiter -/
+theorem dataRanges_content (b : Bytes) (fields : List Field) :
+    ∀ (pre post : Bytes), (∀ f ∈ fields, FieldOK f) →
+      ∀ (i : Nat) (f : Field) (r : Nat × Nat), fields[i]? = some f →
+        (dataRanges (Spec.delim b).length pre.length fields)[i]? = some r →
+        r.2 = r.1 + f.data.length ∧
+        ((pre ++ (Spec.encodeParts b (fields.map Field.part) ++ post)).drop r.1).take f.data.length = f.data ∧
+        ((pre ++ (Spec.encodeParts b (fields.map Field.part) ++ post)).drop r.2).take (Spec.delim b).length =
+          Spec.delim b := by
+  induction fields with
+  | nil => intro pre post _ i f r h; simp at h
+  | cons f0 fs ih =>
+    intro pre post hok i f r hf hr
+    have hf0 := hok f0 (by simp)
+    have hX : pre ++ (Spec.encodeParts b (List.map Field.part (f0 :: fs)) ++ post) =
+        pre ++ (Spec.encodePart b f0.part ++ (Spec.encodeParts b (fs.map Field.part) ++ post)) := by
+      simp only [Spec.encodeParts, List.map_cons, List.flatten_cons, List.append_assoc]
+    cases i with
+    | zero =>
+      simp only [List.getElem?_cons_zero, Option.some.injEq] at hf
+      simp only [dataRanges, List.getElem?_cons_zero, Option.some.injEq] at hr
+      subst hf; subst hr
+      rw [hX]
+      exact ⟨rfl, part_data_at b f0 hf0 pre _, part_delim_at b f0 hf0 pre _⟩
+    | succ i =>
+      simp only [List.getElem?_cons_succ] at hf
+      simp only [dataRanges, List.getElem?_cons_succ] at hr
+      have hX2 : pre ++ (Spec.encodePart b f0.part ++ (Spec.encodeParts b (fs.map Field.part) ++ post)) =
+          (pre ++ Spec.encodePart b f0.part) ++ (Spec.encodeParts b (fs.map Field.part) ++ post) := by
+        simp only [List.append_assoc]
+      have hoff : pre.length + 2 + hdrLen f0 + 4 + f0.data.length + (Spec.delim b).length =
+          (pre ++ Spec.encodePart b f0.part).length := by
+        rw [List.length_append, encodePart_length b f0 hf0]; omega
+      rw [hoff] at hr
+      rw [hX, hX2]
+      exact ih (pre ++ Spec.encodePart b f0.part) post (fun x hx => hok x (by simp [hx])) i f r hf hr
+
 end Ombott.Forms
